@@ -243,9 +243,15 @@ func measureFloatTail(r *mc.Run, pr *pair, cells []int64) {
 	}
 	b := distuv.Binomial{N: float64(pr.W), P: 1.0 - p}
 	worst, at := 0.0, ""
+	tiny := bf().SetMantExp(fOne, -990)
 	for _, j := range cells {
 		c := b.CDF(float64(pr.W - j - 1))
 		T := pr.d.tail(j)
+		// self-check of the oracle tables: tail (summed from the top) + CDF (summed from the bottom) = 1
+		if s := bf().Sub(bf().Add(T, pr.d.cdf(j)), fOne); s.Abs(s).Cmp(tiny) > 0 {
+			r.HarnessError(fmt.Sprintf("exact tables inconsistent: tail(%d)+F(%d)-1 = %s (stake %d, p %s)", j, j, s.Text('g', 5), pr.W, pr.PS.Name))
+			return
+		}
 		rel, _ := bf().Quo(bf().Sub(bf().SetFloat64(c), T), T).Float64()
 		rel = math.Abs(rel)
 		if rel > worst {
